@@ -511,7 +511,8 @@ class Engine(object):
         if k == "str":
             return ("str", o["v"])
         if k == "fn":
-            return ("fnitem", o["dp"], strip_generics(o["path"]), HD(o.get("ctor")))
+            # a trait method passed as a value (`.then(Response::default)`): name it by its instantiation
+            return ("fnitem", o["dp"], strip_generics(o.get("inst") or o["path"]), HD(o.get("ctor")))
         if k == "const":
             return self.eval_const(o["dp"], o.get("path"))
         if k == "promoted":
@@ -642,7 +643,13 @@ class Engine(object):
                     for k, v in self.facts.adts.items():
                         self._pretty2adt.setdefault(v.get("pretty", k), k)
                         self._pretty2adt.setdefault(k, k)
-                res = self._pretty2adt.get(last.split("<")[0])
+                nm = last.split("<")[0]
+                res = self._pretty2adt.get(nm)
+                if res is None and "::" in nm:
+                    # the type is printed by a re-exported path (cw3::Proposal for cw3::proposal::Proposal)
+                    cands = [k for k in self.facts.adts if k.split("::")[0] == nm.split("::")[0] and k.split("::")[-1] == nm.split("::")[-1]]
+                    if len(cands) == 1:
+                        res = cands[0]
         self._item_adt[item] = res
         return res
 
@@ -763,6 +770,15 @@ class Engine(object):
         r = st.refine.get(t)
         if r is not None:
             return [(st, r == pol)]
+        if t[0] == "is":
+            # x.is_some() / x.is_ok() used as a branch condition is the same decision as `match x`: record it on x
+            base, pos = t[1], t[2]
+            adt = OPTION if pos == "Some" else RESULT
+            neg = "None" if pos == "Some" else "Err"
+            out = []
+            for s_i, n, _ in self.force_enum(st, base, adt, site):
+                out.append((s_i, (n == pos) == pol))
+            return out
         s2 = st.copy()
         st.refine[t] = True
         st.conds.append((t, True, site, len(st.effects)))
